@@ -360,7 +360,8 @@ fn secret_sharing(report: &Report, cli: &Cli) {
         for t in 1..=n {
             for s in 0..secrets.len() {
                 // x-coordinates: 1..n, and a non-contiguous unordered set
-                for xs_kind in 0..2 {
+                // and coordinates at the top of the u32 range (revoker identities are u32)
+                for xs_kind in 0..3 {
                     configs.push((n, t, s, xs_kind));
                 }
             }
@@ -368,7 +369,12 @@ fn secret_sharing(report: &Report, cli: &Cli) {
     }
     configs.par_iter().for_each(|&(n, t, si, xs_kind)| {
         let (sn, secret) = &secrets[si];
-        let xs: Vec<u32> = if xs_kind == 0 { (1..=n as u32).collect() } else { (1..=n as u32).map(|i| (i * 7919 + 3) % 65521 + 1).rev().collect() };
+        const LARGE: [u32; 6] = [u32::MAX, (1 << 31) + 1, u32::MAX - 1, (1 << 22) + 5, 1 << 31, 3_000_000_019];
+        let xs: Vec<u32> = match xs_kind {
+            0 => (1..=n as u32).collect(),
+            1 => (1..=n as u32).map(|i| (i * 7919 + 3) % 65521 + 1).rev().collect(),
+            _ => LARGE[..n].to_vec(),
+        };
         let mut r = rng(cli.seed, (n * 1000 + t * 10 + si) as u64);
         let data = share::<C, u32, _, _>(secret, xs.iter().copied(), Threshold::try_new(t as u8).unwrap(), &mut r);
         let secret_point = g.mul_by_scalar(secret);
@@ -405,6 +411,39 @@ fn secret_sharing(report: &Report, cli: &Cli) {
             });
         }
     });
+}
+
+/// Many shares: 25 and 40 points (products of the coordinates far beyond 64 bits), thresholds at
+/// both ends; the first / last / an interleaved threshold-many shares and all of them.
+fn many_shares(report: &Report, cli: &Cli) {
+    type C = ArCurve;
+    let g = C::generate(&mut rng(cli.seed, 41));
+    let secret = C::generate_scalar(&mut rng(cli.seed, 42));
+    let secret_point = g.mul_by_scalar(&secret);
+    for (n, offset) in [(25usize, 0u32), (40, 0), (25, 1_000_000), (25, u32::MAX - 30)] {
+        for t in [1usize, 2, 21, 22, 23, n] {
+            if t > n {
+                continue;
+            }
+            let xs: Vec<u32> = (1..=n as u32).map(|i| offset + i).collect();
+            let data = share::<C, u32, _, _>(&secret, xs.iter().copied(), Threshold::try_new(t as u8).unwrap(), &mut rng(cli.seed, 43 + (n * 100 + t) as u64));
+            let picks: Vec<(&str, Vec<usize>)> = vec![("first", (0..t).collect()), ("last", (n - t..n).collect()), ("interleaved", (0..n).filter(|i| i % 2 == 0).chain((0..n).filter(|i| i % 2 == 1)).take(t).collect()), ("all", (0..n).collect())];
+            for (name, subset) in picks {
+                case(report, json!({"secret_sharing_many": {"n": n, "first_coordinate": offset + 1, "threshold": t, "shares": name}}), || {
+                    let shares: Vec<(u32, PedersenValue<C>)> = subset.iter().map(|&i| (xs[i], data.shares[i].clone())).collect();
+                    let gshares: Vec<(u32, C)> = subset.iter().map(|&i| (xs[i], g.mul_by_scalar(&data.shares[i]))).collect();
+                    report.trace(2);
+                    if reveal::<u32, C>(&shares) != secret {
+                        return fail("threshold-shares-do-not-reconstruct", json!({"where": "field"}));
+                    }
+                    if reveal_in_group::<u32, C>(&gshares) != secret_point {
+                        return fail("threshold-shares-do-not-reconstruct", json!({"where": "exponent"}));
+                    }
+                    Ok(())
+                });
+            }
+        }
+    }
 }
 
 /// SLIP-0010 for ed25519, written from the specification.
@@ -556,6 +595,7 @@ pub fn run(cli: &Cli) -> ! {
     hash_to_group_checks::<BlsG2>(&report, "G2", &g2_sub);
     hash_to_group_checks::<RistrettoPoint>(&report, "ristretto", &ris_sub);
     secret_sharing(&report, cli);
+    many_shares(&report, cli);
     key_derivation_checks(&report, cli);
     let n = report.evaluations.load(std::sync::atomic::Ordering::Relaxed);
     report.state(n);
